@@ -15,10 +15,9 @@
 //! # filter definitions for filtering dlt messages
 use crate::dlt;
 #[cfg(not(feature = "verif_hooks"))]
-use std::collections::HashSet;
-use std::iter::FromIterator;
+use std::{collections::HashSet, iter::FromIterator};
 #[cfg(feature = "verif_hooks")]
-use verif_hooks::HashSet;
+use {std::iter::FromIterator, verif_hooks::HashSet};
 
 /// Model of the id sets for out-of-tree verification harnesses (feature `verif_hooks`): a vector-backed
 /// set with the part of the `HashSet` API the filter configuration uses.
